@@ -5,3 +5,5 @@ LEVEL = "other"
 def check(rep, tier):
     from contracts import rules_scalar
     rules_scalar.run(rep, tier, adjoint=True)
+    from contracts import rules_exact
+    rules_exact.run(rep, tier, rules_exact.CLAUSE_PROPS["C04"])
